@@ -9,7 +9,7 @@ from . import c01
 RULE = ("Hypothesis-generated hosts with, for each drawn payload type T (every primitive, enums with negative/gapped discriminants, structs with and without padding, "
         "out-structs in return positions), "
         "twin methods that differ only in spelling: Option<T> vs DiplomatOption<T> as parameter and as return, Result<T,E> vs DiplomatResult<T,E> with unit and non-unit "
-        "arms (also on methods that return text through a DiplomatWrite), plus optional opaque pointers (Option<&O> in, Option<&O> / Option<Box<O>> out) and a struct carrying DiplomatOption<T> and Option<&O> fields in both directions. "
+        "arms (also on methods that return text through a DiplomatWrite), the by-value payload spelled `Self` on its own type (Option<Self> / DiplomatOption<Self> / Option<Name>), plus optional opaque pointers (Option<&O> in, Option<&O> / Option<Box<O>> out) and a struct carrying DiplomatOption<T> and Option<&O> fields in both directions. "
         "Twins receive identical drawn call vectors. Oracle: (1) the C prototypes and result typedefs of each twin pair are token-identical after renaming; (2) executed through "
         "the generated header (gcc, ASan+UBSan) both twins log and return exactly the drawn values; (3) read from C as bytes, is_ok is 0 or 1 and 1 exactly for Some/Ok, it "
         "sits after the payload union, sizeof of every result/option equals the size of the type the proc macro returns, None pointers are NULL and Some pointers are not. "
@@ -67,6 +67,16 @@ def cases(draw):
             add("%s_resw_%d" % (sp, k), [["dv_w", ["write"], []]], ["result", ["unit"], copy.deepcopy(E), sp])
         twins.append(("std_resw_%d" % k, "dip_resw_%d" % k))
         same_body.append(("std_res_%d_1" % k, "std_resw_%d" % k))
+    # by-value payloads spelled through `Self` on their own type: Option<Self> / DiplomatOption<Self> / Option<TypeName>
+    for k, T in enumerate([t for t in payloads if t[0] in ("struct", "enum")]):
+        owner = next(i for i in items if i["name"] == T[1])
+        selfT = copy.deepcopy(T) + ["Self"]
+        ms = []
+        for nm, ty in (("selfopt_named_%d" % k, ["opt", copy.deepcopy(T), "std"]), ("selfopt_std_%d" % k, ["opt", copy.deepcopy(selfT), "std"]), ("selfopt_dip_%d" % k, ["opt", copy.deepcopy(selfT), "dip"])):
+            ms.append({"name": nm, "attrs": [], "lifetimes": [], "self": None, "params": [["x", ty, []], ["tail", ["prim", "u16"], []]], "ret": ["prim", "u8"]})
+        owner["impls"].append({"attrs": [], "methods": ms})
+        twins.append(("selfopt_named_%d" % k, "selfopt_std_%d" % k))
+        twins.append(("selfopt_std_%d" % k, "selfopt_dip_%d" % k))
     add("optref_in", [["x", ["opt", ["ref", None, False, host["name"], []], "std"], []], ["tail", ["prim", "i64"], []]], ["prim", "bool"])
     # the same optional pointer spelled through `Self`
     add("optself_in", [["x", ["opt", ["ref", None, False, host["name"], [], "Self"], "std"], []], ["tail", ["prim", "i64"], []]], ["prim", "bool"])
@@ -86,7 +96,7 @@ def cases(draw):
     e2e.add_support_methods(prog)
     plan = e2e.plan_calls(draw, prog, 3)
     # twins get identical call vectors
-    by_name = {p_["method"]: p_ for p_ in plan if p_["type"] == host["name"]}
+    by_name = {p_["method"]: p_ for p_ in plan if p_["type"] == host["name"] or p_["method"].startswith("selfopt_")}
     for a, b in twins:
         by_name[b]["calls"] = copy.deepcopy(by_name[a]["calls"])
         for c in by_name[b]["calls"]:
@@ -109,7 +119,7 @@ def decl_identity(prog, twins, host, cdir, protos):
     tds = typedefs(cdir)
     syms = {}
     for mod, it, impl, m in ir.all_methods(prog):
-        if it["name"] == host:
+        if it["name"] == host or m["name"].startswith("selfopt_"):
             syms[m["name"]] = naming.method_symbol(mod, it, impl, m)
     for a, b in twins:
         sa, sb = syms[a], syms[b]
